@@ -63,6 +63,12 @@ def run(F, R):
             for c in cs:
                 ok = ok and param_deps(b, c.args[0]) == {1} and param_deps(b, c.args[1]) == {2}
             R.check(ok, "R08.2", "operator:" + name, b.where(), "PartialOrd::%s(value.as_(), n)" % op, "wrong comparison in %s: %s" % (name, [c.declared for c in cs]))
+            # the conversion is applied to the value (T -> N, whose losslessness R08.1 decides per instantiation), never to the bound
+            conv = [c for c in b.calls() if (c.declared or "").endswith("AsPrimitive::as_")]
+            bad_conv = [c for c in conv if param_deps(b, c.args[0]) != {1}]
+            R.check(bool(conv) and not bad_conv, "R08.2", "conversion-applied-to-value:" + name, b.where(), "value.as_() compared with the bound as written",
+                    "%s converts the bound into the value's type (n.as_()): a bound outside that type's range is wrapped (maximum = 300 on u8 becomes 44) and R08.1's "
+                    "table no longer describes the comparison" % name)
         else:
             cmps = [x for x in comparisons(b) if x[5] is not None]
             ok = bool(cmps)
@@ -73,6 +79,9 @@ def run(F, R):
             R.check(ok, "R08.2", "operator:" + name, b.where(), "measure %s bound" % op, "wrong operator/operands in %s: %s" % (name, [x[1] for x in cmps]))
             if measure == "count":
                 R.check(bool(b.calls_to(r"::count$")) and bool(b.calls_to(r"::chars$")), "R08.2", "measure:" + name, b.where(), "chars().count()", "%s does not count chars" % name)
+                blen = [c for c in b.calls() if c.callee and re.search(r"(str|string)::\{impl#\d+\}::len$", c.callee)]
+                R.check(not blen and len(cmps) == 1, "R08.2", "measure-only-chars:" + name, b.where(), "one comparison, on the character count only",
+                        "%s also looks at the byte length (%d len() calls, %d comparisons): a byte-length shortcut is wrong for multi-byte characters (a char takes 1-4 bytes)" % (name, len(blen), len(cmps)))
             if measure == "len":
                 R.check(not b.calls_to(r"::chars$") and bool(b.calls_to(r"str::\{impl#\d+\}::len$|::len$")), "R08.2", "measure:" + name, b.where(), "byte len()", "%s does not use len()" % name)
     mo = F.one(VAL + r"multiple_of::multiple_of$", kind="fn")
